@@ -123,6 +123,8 @@ func c15Exec(tr *vh.Transcript, ops []string) {
 				s.miner.send(`{"id":%s,"method":"mining.authorize","params":["%s",""]}`, f[3], f[4])
 			case "submit":
 				s.miner.send(`{"id":99,"method":"mining.submit","params":["w","j","00","00000000","00000000"]}`)
+			case "raw":
+				s.miner.send("%s", string(c14Unhex(f[3])))
 			}
 			flushAll(op)
 		case "p":
@@ -165,6 +167,8 @@ func c15Exec(tr *vh.Transcript, ops []string) {
 				pc.send(`{"id":null,"method":"mining.set_extranonce","params":["%s",%s]}`, f[3], f[4])
 			case "vmask":
 				pc.send(`{"id":null,"method":"mining.set_version_mask","params":["%s"]}`, f[3])
+			case "raw":
+				pc.send("%s", string(c14Unhex(f[3])))
 			}
 			flushAll(op)
 		default:
@@ -211,7 +215,7 @@ func c15Gen(r *vh.Rng) []string {
 		}
 		id := c.nextID
 		switch x := r.Intn(100); {
-		case x < 14 && !c.hasDest: // configure only while no destination exists (a second one crashes the process: C05)
+		case x < 14 && (!c.hasDest || r.Bool(15)): // mostly while no destination exists; a later one is refused
 			contract := "-"
 			if r.Bool(40) {
 				contract = vh.Pick(r, []string{known, selfval, "0x" + strings.Repeat("ee", 20), "lumerin"})
